@@ -358,7 +358,7 @@ def match_finding(findings, v):
     for f in findings:
         if f.get("status") != "open":
             continue
-        if f.get("kind") != v["kind"]:
+        if f.get("kind") != "*" and f.get("kind") != v["kind"]:
             continue
         if re.fullmatch(f["sig"], v["sig"]):
             return f
